@@ -383,6 +383,11 @@ class Enc:
             if name == "neg":
                 return self.neg(vals[0])
             return self.binop(op, vals[0], vals[1], pc)
+        if len(cands) > 1:
+            # scalars are modelled as integers: prefer the overload whose scalar parameters are all `int`
+            ints = [f for f in cands if all(ty == "int" or ty in self.structs for _, ty, _ in f["params"])]
+            if len(ints) == 1:
+                cands = ints
         if len(cands) != 1:
             raise Unsupported("call %s/%d: %d candidate definitions" % (name, len(vals), len(cands)))
         f = cands[0]
